@@ -91,6 +91,8 @@ structure T where
   stBeforeInsert : Option Stats := none
   insFailed : Option Nat := none         -- a top-level insertion just failed (C15: compare the statistics)
   regFailed : Bool := false              -- a registration step failed: C16 speaks of histories without such failures
+  issued : List Tok := []                -- every registration token handed out so far
+  f12 : Bool := false                    -- known finding F12 triggered: a registration token was handed out a second time (generation wrap)
   f15 : Bool := false                    -- known finding F15 triggered (see onExec): later C16 clauses are attributed to it
   ended : Bool := false                  -- the case is over: the loop itself is being dropped
   wf : Bool := true                      -- documented exclusions respected so far
@@ -106,6 +108,7 @@ def T.modSrc (t : T) (k : Nat) (f : ASrc → ASrc) : T :=
 def T.flag (t : T) (p : PropId) (why : String) : T :=
   -- once finding F15 has been triggered, what the poller then lacks / delivers is attributed to it
   let why := if t.f15 && (p == .C16 || p == .C02 || p == .C01 || p == .C07) then "[F15] " ++ why else why
+  let why := if t.f12 then "[F12] " ++ why else why
   if t.wf then { t with viols := t.viols ++ [⟨p, why, t.idx⟩] } else t
 
 def T.flagIf (t : T) (c : Bool) (p : PropId) (why : String) : T := if c then t.flag p why else t
@@ -313,6 +316,7 @@ def onObs (t : T) (x : Obs) : T :=
     | some (k, v), .ok => t.modSrc k fun a => { a with sent := a.sent ++ [v] }
     | _, _ => t
   | .ins k (.ok tok) =>
+    let t := if t.issued.contains tok then { t with f12 := true } else { t with issued := tok :: t.issued }
     t.modSrc k fun a => { a with status := .enabled, tok := some tok, touched := true, everInserted := true, dirty := false, rr := a.ir, rw := a.iw,
                                  rmode := a.mode, disarmed := false, armed := a.kind == .timer && a.deadline.isSome }
   | .ins k (.err _) =>
